@@ -494,7 +494,7 @@ func c16After(rc *RunCtx, res *simrt.Result) {
 			}
 		}
 	}
-	for id := range emitted {
+	for _, id := range sortedInts(emitted) {
 		if d.byID[id] == nil {
 			viol("phantom-record", fmt.Sprintf("record %d emitted but never handed in", id))
 		}
